@@ -31,9 +31,25 @@ func NewDisconnectMessage() *DisconnectMessage {
 	return msg
 }
 
+// Len returns the length of the encoded message.
+func (m *DisconnectMessage) Len() int {
+	if !m.dirty {
+		return len(m.dbuf)
+	}
+
+	return m.header.msglen()
+}
+
 // Decode decodes the message.
 func (m *DisconnectMessage) Decode(src []byte) (int, error) {
-	return m.header.decode(src)
+	n, err := m.header.decode(src)
+	if err != nil {
+		return n, err
+	}
+
+	m.dirty = false
+
+	return n, nil
 }
 
 // Encode encodes the message.
